@@ -16,7 +16,12 @@
 (e) joint statistics of fault-tolerant runs (harness/c17_extra.py): every pair of different output bits of a run
     (qubit hit / X part / Z part in any step, syndrome bit flipped in any step) and every such pair across consecutive
     runs of one generator must be independent: exact 2x2 contingency tests, Bonferroni over all pairs at family error
-    rate 1e-9, plus pooled (step lag, index offset) and weight-against-flip-count correlations."""
+    rate 1e-9, plus pooled (step lag, index offset) and weight-against-flip-count correlations.
+(f) reproducibility as a direct clause (harness/c17_repro.py): short histories of generate / run_once / run_once_ftp calls
+    on one caller-owned generator (any numpy bit generator, already used before the checkpoint): restoring the recorded
+    bit_generator.state, or copying it into a second generator, reproduces every error and every vector of flips; the
+    calls consumed variates unless every output is deterministic; child interpreters with other string-hash salts
+    (PYTHONHASHSEED 0, 1, 2, random) give the same outputs from the same seeds."""
 import bisect
 import json
 import logging
@@ -27,6 +32,7 @@ import numpy as np
 
 from harness.common import bitstr, exc_class, coq_list
 from harness import c17_extra as c17x
+from harness import c17_repro as c17r
 
 LET = 'IXYZ'
 EDGE = 2.0 ** -45          # uniforms this close to a cumulative bound are not compared (float vs exact cdf)
@@ -103,9 +109,13 @@ def run(ctx):
                 'of each parameterised class at one p, in order and reversed, one instance at several p; joint statistics: '
                 '%d fault-tolerant configurations (4+ fixed, the rest random: code n <= %d, any IID model, p in [0.05,0.6], '
                 'q None or in [0.05,0.7], T in 2..6, run_ftp or run_once_ftp on one generator) of %d runs each, all pairs of '
-                'output bits within a run and across consecutive runs, exact tests at family error rate 1e-9. nontrivial = at '
+                'output bits within a run and across consecutive runs, exact tests at family error rate 1e-9; reproducibility: %d '
+                'histories of 1..3 calls of generate (same model / p / code domains) or run_once / run_once_ftp (T <= 5, q in '
+                '{None, 0, 1, random}) on a generator of any numpy bit-generator class after 0..100 earlier draws: state restored, '
+                'state copied into a second generator, state advanced, and the same histories in child interpreters with '
+                'PYTHONHASHSEED 0, 1, 2, random. nontrivial = at '
                 'least two non-zero error letters and n >= 9' % (ctx.pick(400, 800), 200000, ctx.pick(7, 16), ctx.pick(24, 61),
-                                                                 ctx.pick(1500, 4000)))
+                                                                 ctx.pick(1500, 4000), ctx.pick(360, 1500)))
     ctx.props_obligations()
     ctx.trusted += [
         'numpy SeedSequence / PCG64 / Generator.random as the uniform source (uniformity and independence trusted; '
@@ -501,6 +511,35 @@ def run(ctx):
     c17x.joint_statistics(ctx, app, ScriptedDecoder, jcfg, viol, stats)
     ctx.extra['statistical_support'] = stats
 
+    # ------------------------------------------------------------------ (f) reproducibility as a direct clause
+    env = c17r._env()
+    jobs, parent_out = [], []
+    for it in range(ctx.pick(360, 1500)):
+        api = rng.choice(['generate', 'generate', 'generate', 'run_once', 'run_once_ftp', 'run_once_ftp'])
+        m, kind = rand_model()
+        p = rand_p(kind)
+        code = rand_code() if api == 'generate' else rng.choice(ftp_codes)
+        n = code.n_k_d[0]
+        T = rng.randint(1, 5) if api == 'run_once_ftp' else 1
+        q = rng.choice([None, 0.0, 1.0, rng.random(), rng.random()]) if api == 'run_once_ftp' else None
+        job = {'api': api, 'model': repr(m), 'code': repr(code), 'p_hex': float(p).hex(), 'q_hex': None if q is None else float(q).hex(),
+               'T': T, 'bitgen': rng.choice(c17r.BITGENS), 'seed': rng.randrange(2 ** 32),
+               'burn': rng.choice([0, 0, 1, 5, rng.randint(0, 100)]), 'calls': rng.choice([1, 2, 2, 3])}
+        try:   # the distribution of the model as the job describes it (repr round trip)
+            fd = valid_dist(eval(job['model'], dict(env)).probability_distribution(p))
+        except Exception:  # noqa  (C16's business)
+            fd = None
+        if fd is None:
+            ctx.count(None, False, 'skipped:invalid-distribution(C16 finding)')
+            continue
+        q_eff = 0.0 if api != 'run_once_ftp' else ((0.0 if T == 1 else p) if q is None else q)
+        job['deterministic'] = any(v == 1 for v in fd) and q_eff in (0.0, 1.0)
+        nz = sum(1 for v in fd[1:] if v > 0)
+        ctx.count(('repro',) + tuple(sorted((k, str(v)) for k, v in job.items())), nz >= 2 and n >= 9 and 0 < p, 'repro:' + api)
+        jobs.append(job)
+        parent_out.append(c17r.check_job(job, env, viol))
+    c17r.cross_process(ctx, jobs, parent_out, viol)
+
     # ------------------------------------------------------------------ in-kernel shard
     items = []
     for k in kern:
@@ -533,7 +572,9 @@ def replay(path):
         from qecsim.models.generic import (DepolarizingErrorModel, BitFlipErrorModel, PhaseFlipErrorModel,  # noqa
                                            BitPhaseFlipErrorModel, BiasedDepolarizingErrorModel, BiasedYXErrorModel,
                                            CenterSliceErrorModel)
-        if r.get('kind') == 'joint':
+        if r.get('kind') == 'repro':
+            c17r.replay_job(r)
+        elif r.get('kind') == 'joint':
             from qecsim import app
             from qecsim.models.basic import FiveQubitCode, SteaneCode  # noqa
             from qecsim.models.planar import PlanarCode  # noqa
